@@ -151,6 +151,67 @@ Section Reject.
     destruct (scan_items_spec its ls tot true Hnn Hs) as [Ht _]. lia.
   Qed.
 
+  (* ... in general: a line that no port accepts WHEN ITS TURN COMES (unknown address, an
+     argument the port's specification does not take, an element index beyond '#N', a port
+     below a pointer sub-tree that is absent at that moment) makes the result negative, and
+     the lines behind it are not dispatched; of an array line the elements in front of the
+     one that is not accepted have been applied (partial_line) *)
+  Lemma apply_all_stops : forall a pre l post st s,
+    apply_all a pre st = (s, true) -> apply_line a l s = None ->
+    apply_all a (pre ++ l :: post) st = (partial_line a l s, false).
+  Proof.
+    induction pre as [|x pre IH]; intros l post st s Hp Hl; simpl in *.
+    - inversion Hp; subst. rewrite Hl. reflexivity.
+    - destruct (apply_line a x st) as [st1|]; [|discriminate]. exact (IH _ _ _ _ Hp Hl).
+  Qed.
+
+  Theorem reject_unaccepted : forall a its st ls tot order pre l post s r st',
+    rd_nonneg its -> scan_items its = (ls, tot, true) ->
+    load_order apropos fuel (map (fun l => (l_path l, l)) ls) = Some order ->
+    pick ls dummy_line order = pre ++ l :: post ->
+    apply_all a pre st = (s, true) -> apply_line a l s = None ->
+    dispatch_printed apropos fuel a its st = Some (r, st') -> r < 0 /\ st' = partial_line a l s.
+  Proof.
+    intros a its st ls tot order pre l post s r st' Hnn Hs Ho Hpk Hpre Hl H.
+    unfold dispatch_printed in H. rewrite Hs, Ho, Hpk in H.
+    rewrite (apply_all_stops a pre l post st s Hpre Hl) in H. inversion H; subst.
+    destruct (scan_items_spec its ls tot true Hnn Hs) as [Ht _]. split; [lia | reflexivity].
+  Qed.
+
+  (* a scalar line that is not accepted leaves the state as it was *)
+  Lemma partial_line_scalar : forall a l s, l_array l = false -> partial_line a l s = s.
+  Proof.
+    intros a l s H. unfold partial_line. destruct (find_port a (l_path l)); [|reflexivity].
+    rewrite H, andb_false_r. reflexivity.
+  Qed.
+
+  (* the causes that do not depend on the state *)
+  Lemma unaccepted_wrong_argument : forall a l i v s,
+    find_port a (l_path l) = Some i -> l_array l = false -> l_vals l = [v] ->
+    store (port_at a i) v = None -> apply_line a l s = None.
+  Proof.
+    intros a l i v s Hf Ha Hv Hst. unfold apply_line. rewrite Hf, Ha, Hv.
+    destruct (Bool.eqb false (p_array (port_at a i))); [|reflexivity].
+    unfold set_elem. destruct (0 <? p_len (port_at a i))%nat; [|reflexivity]. rewrite Hst. reflexivity.
+  Qed.
+  Lemma unaccepted_array_mismatch : forall a l i s,
+    find_port a (l_path l) = Some i -> l_array l <> p_array (port_at a i) -> apply_line a l s = None.
+  Proof.
+    intros a l i s Hf Hne. unfold apply_line. rewrite Hf.
+    destruct (Bool.eqb (l_array l) (p_array (port_at a i))) eqn:E; [|reflexivity].
+    apply Bool.eqb_prop in E. contradiction.
+  Qed.
+  (* ... and the one that does: the port lies below a pointer sub-tree whose switch is off *)
+  Lemma unaccepted_absent : forall a l i v s,
+    find_port a (l_path l) = Some i -> l_array l = false -> l_vals l = [v] ->
+    exists_ a s i = false -> apply_line a l s = None.
+  Proof.
+    intros a l i v s Hf Ha Hv He. unfold apply_line. rewrite Hf, Ha, Hv.
+    destruct (Bool.eqb false (p_array (port_at a i))); [|reflexivity].
+    unfold set_elem. destruct (0 <? p_len (port_at a i))%nat; [|reflexivity].
+    destruct (store (port_at a i) v); [|reflexivity]. rewrite He. reflexivity.
+  Qed.
+
   (* a negative result of the body makes load_from_file's result negative *)
   Theorem reject_propagates : forall a name f st n1 n2 r st',
     f_h1 f = Some n1 -> f_h2 f = Some (name, n2) -> 0 <= n1 -> 0 <= n2 ->
@@ -164,6 +225,18 @@ Section Reject.
     rewrite H. split; [reflexivity | lia].
   Qed.
 End Reject.
+
+Lemma unaccepted_causes : forall a l i v s,
+  find_port a (l_path l) = Some i ->
+  (l_array l = false -> l_vals l = [v] -> store (port_at a i) v = None -> apply_line a l s = None) /\
+  (l_array l <> p_array (port_at a i) -> apply_line a l s = None) /\
+  (l_array l = false -> l_vals l = [v] -> exists_ a s i = false -> apply_line a l s = None).
+Proof.
+  intros a l i v s Hf. split; [|split].
+  - intros Ha Hv Hs. exact (unaccepted_wrong_argument a l i v s Hf Ha Hv Hs).
+  - intros Hne. exact (unaccepted_array_mismatch a l i s Hf Hne).
+  - intros Ha Hv He. exact (unaccepted_absent a l i v s Hf Ha Hv He).
+Qed.
 
 (* ---- the callbacks store a fixed point of themselves (from C14) ---------- *)
 Lemma store_idem : forall p v v', store p v = Some v' ->
